@@ -2,6 +2,7 @@ package rules
 
 import (
 	"fmt"
+	"go/token"
 	"strings"
 
 	"golang.org/x/tools/go/ssa"
@@ -142,6 +143,28 @@ func runC18(c *eng.Ctx) {
 				} else {
 					nonPreserving = base
 				}
+			}
+		}
+		// `a != b` on the two flags together with one of them decides the other
+		for _, at := range g {
+			b, ok := at.V.(*ssa.BinOp)
+			if !ok || at.Pos || (b.Op != token.EQL && b.Op != token.NEQ) {
+				continue
+			}
+			x, y := eng.Render(b.X), eng.Render(b.Y)
+			if !strings.HasSuffix(x, ".PreservesExecutability") || !strings.HasSuffix(y, ".PreservesExecutability") {
+				continue
+			}
+			xb, yb := strings.TrimSuffix(x, ".PreservesExecutability"), strings.TrimSuffix(y, ".PreservesExecutability")
+			switch {
+			case preserving == xb && nonPreserving == "":
+				nonPreserving = yb
+			case preserving == yb && nonPreserving == "":
+				nonPreserving = xb
+			case nonPreserving == xb && preserving == "":
+				preserving = yb
+			case nonPreserving == yb && preserving == "":
+				preserving = xb
 			}
 		}
 		if !c.Check("R3", key+"/exactly-one-preserves", call.Pos(), preserving != "" && nonPreserving != "" && preserving != nonPreserving, "one snapshot was tested to preserve executability and the other not to", atomsShort(g)) {
